@@ -162,6 +162,10 @@ int main(int argc, char** argv) {
             rootO = Tree::invalid(); rootP = Tree::invalid(); rootR = Tree::invalid();
             O = Side(); P = Side(); Rf = Side();
             { std::lock_guard<std::mutex> g(L.mu); L.events.clear(); }
+            {   // every third case uses oracles without gradient code of their own
+                unsigned h = 0; if (w.size() > 1) for (char ch : w[1]) h = h * 31 + (unsigned char)ch;
+                WrapOracle::inheritDerivs() = (h % 3 == 1);
+            }
             std::cout << line << "\n";
         } else if (w[0] == "n") {
             if (w.size() >= 4 && w[2] == "wrap") {
@@ -279,8 +283,22 @@ int main(int argc, char** argv) {
             flushEvents();
             std::cout << "tr end eval\n";
             unboundLine();
+            // the same batch asked again WITHOUT setting the points again: whatever the gradient query borrowed
+            // from the oracle's stored slots must have been put back
+            std::vector<float> rvo(n), rvp(n);
+            L.enabled = false;
+            { auto r = evO->values(n, *stack.back()); for (size_t k = 0; k < n; ++k) rvo[k] = r(k); }
+            L.enabled = true;
+            { std::lock_guard<std::mutex> g(L.mu); L.events.clear(); }
             for (size_t k = 0; k < n; ++k) evP->set(pts[k], k);
             { auto r = evP->derivs(n); for (size_t k = 0; k < n; ++k) gp[k] = r.col(k); }
+            { auto r = evP->values(n); for (size_t k = 0; k < n; ++k) rvp[k] = r(k); }
+            std::cout << "reval " << n << " " << (WrapOracle::inheritDerivs() ? 1 : 0);
+            for (size_t k = 0; k < n; ++k) {
+                auto d = ref(pts[k].x(), pts[k].y(), pts[k].z());
+                std::cout << " " << hex(rvo[k]) << " " << hex(rvp[k]) << " " << efStr(d.v);
+            }
+            std::cout << "\n";
             std::cout << "grad " << n;
             for (size_t k = 0; k < n; ++k) {
                 auto d = ref(pts[k].x(), pts[k].y(), pts[k].z());
